@@ -280,6 +280,7 @@ def check_C01(run):
     impl, _ = vlib.run_impl_par(reqs)
     model = vlib.run_model_par(reqs)
     nv = 0
+    ngood = 0
     for e, a, b in zip(pool, impl, model):
         fen = e["fen"]
         db = kv(b)
@@ -293,6 +294,12 @@ def check_C01(run):
             cl.append("promotion")
         castles = False
         run.note_case(fen, e["cls"], nontrivial=bool(cl) or e["cls"] in ("pin", "check", "ep", "castle960", "promo"))
+        ngood += 1
+        if db.get("good") != "1":
+            nv += 1
+            if nv <= 25:
+                run.violation("theorem-premise", "good_pos_b (the position-level hypothesis of C02_every_generated_move_refines / "
+                              "C04_every_generated_move_keeps_the_key) is false on a position of D", {"fen": fen, "model": b[-200:]}, found_input=False)
         for c in cl:
             run.cov["classes"]["feature:" + c] = run.cov["classes"].get("feature:" + c, 0) + 1
         if a.startswith("PANIC") or a.startswith("DIED"):
@@ -318,7 +325,9 @@ def check_C01(run):
     run.cov["traces_validated_against_impl"] = len(reqs)
     for i in (0, len(pool) // 2, len(pool) - 1):
         run.sample({"fen": pool[i]["fen"], "class": pool[i]["cls"], "implementation": impl[i][:300]})
-    run.cov["explanation"] = ("PARTIAL proof: closed lemmas are listed under 'theorems' (slider exactness C10, shift/ray characterisations); "
+    run.cov["good_pos_b_true_on_positions"] = ngood
+    run.cov["explanation"] = ("PARTIAL proof: closed lemmas are listed under 'theorems' (slider exactness C10, shift/ray characterisations); every generated move is "
+                              "proved sane (GenSane: our man on the origin, target not ours, ...) on positions passing good_pos_b, evaluated (true) on every position here; "
                               "the full refinement movegen_exact (generator = rules on all of D) is stated in coq/props/C01.v but not yet proved; "
                               "until then 'equals the rules' rests on this differential against the executable specification "
                               "spec/Rules.v (extracted), which is a test, not a proof")
@@ -505,6 +514,11 @@ def check_C02(run):
         b_core = b.split(" spec=")[0]
         if m != "null":
             nprem += 1
+            if db.get("good") != "1":
+                nv += 1
+                if nv <= 25:
+                    run.violation("theorem-premise", "good_pos_b (the hypothesis of C02_every_generated_move_refines) is false on a position of D",
+                                  {"fen": e["fen"], "model": b[-200:]}, found_input=False)
             if db.get("prem") != "1":
                 nv += 1
                 if nv <= 25:
@@ -557,7 +571,7 @@ def check_C02(run):
     run.sample({"request": reqs[0], "implementation": impl[0][:400]})
     run.sample({"request": plays[0][:300], "implementation": impl[off][:300]})
     run.cov["refines_b_true_on_legal_moves"] = nprem
-    run.cov["explanation"] = ("PARTIAL proof: makemove = Rules.apply proved for every move (castling included) under the executable test refines_b, "
+    run.cov["explanation"] = ("PARTIAL proof: makemove = Rules.apply proved for EVERY generated move of a position passing good_pos_b (no per-move premise; also per move under refines_b), "
                               f"which was evaluated (true) on all {nprem} legal moves of this run; that every legal move of a position in D passes "
                               "it, and in_D preservation, rest on running model, implementation and specification on every legal move of sampled "
                               "positions and along play-outs")
@@ -617,6 +631,11 @@ def check_C04(run):
         db = kv(b)
         if m != "null":
             nkprem += 1
+            if db.get("good") != "1":
+                nv += 1
+                if nv <= 25:
+                    run.violation("theorem-premise", "good_pos_b (the hypothesis of C04_every_generated_move_keeps_the_key) is false on a position of D",
+                                  {"fen": e["fen"], "model": b[-200:]}, found_input=False)
             if db.get("kprem") != "1":
                 nv += 1
                 if nv <= 25:
@@ -706,7 +725,7 @@ def check_C04(run):
     run.cov["explanation"] = ("key_min_distance (two feature sets differing in 1..4 features have different keys) is proved by a vm_compute "
                               "sweep over the regenerated key tables; the recomputed key is proved to be a function of the abstract "
                               "state alone (key_of_abs); predicted key = recomputed key after the move, and makemove stores the prediction, "
-                              f"are proved for every move kind under the executable test key_move_b, evaluated (true) on all {nkprem} legal "
+                              f"are proved for EVERY generated move of a position passing good_pos_b (and per move under key_move_b); both tests evaluated (true) on all {nkprem} legal "
                               "moves of this run; that every legal move of D passes it rests on these runs; the 'differing positions had "
                               "different keys' clause is empirical by its own wording and is measured here over all positions met")
 
